@@ -149,6 +149,136 @@ def check_scripts(ctx, cases, mapname=None):
     return evals, viol, samples
 
 
+
+# ------------------------------------------------------------------ 4. row limits, file mode, backslash commands
+
+def gen_maxrows(ctx):
+    if ctx.quick:
+        consts = 'Formats = {"csv", "ndjson", "table"}  Limits = {1, 2, 99}  MaxN = 4  BatchSizes = {1, 3}'
+    else:
+        consts = 'Formats = {"csv", "tsv", "json", "ndjson", "table", "automatic"}  Limits = {0, 1, 2, 3, 99}  MaxN = 5  BatchSizes = {1, 2, 8}'
+    cfg = ctx.path("maxrows.cfg")
+    open(cfg, "w").write("CONSTANTS " + consts + "\nSPECIFICATION Spec\nINVARIANTS NoSilentLoss Emit\nCHECK_DEADLOCK FALSE\n")
+    r = tlc_must_pass(ctx, "text/CliMaxRows", cfg=cfg, workers=2, deadlock=False, tag="maxrows")
+    return r, tlc_cases(r.out)
+
+
+def parse_blocks(fmt, out):
+    """Split the client's stdout into per-statement (data rows, footer) blocks; every statement ends with a footer."""
+    blocks, cur = [], []
+    for ln in out.split("\n"):
+        if re.match(r"^\d+ row\(s\) fetched\.", ln):
+            blocks.append((cur, ln))
+            cur = []
+        elif ln.startswith("Elapsed ") or ln.strip() in ("", "\\q"):
+            continue
+        else:
+            cur.append(ln)
+    return blocks
+
+
+def rows_of(fmt, lines):
+    if fmt in ("csv", "tsv", "automatic"):
+        return [l for l in lines[1:]] if lines else []
+    if fmt == "ndjson":
+        return lines
+    if fmt == "json":
+        return json.loads("".join(lines)) if lines else []
+    return [l for l in lines if l.startswith("|") and not re.match(r"^\| \.\s*\|$", l)][1:]     # table: drop header and dotted lines
+
+
+def check_maxrows(ctx, cases, only=None):
+    viol, evals, samples = [], 0, []
+    groups = {}
+    for c in cases:
+        groups.setdefault((c["fmt"], c["maxrows"]), []).append(c)
+    for (fmt, m), cs in sorted(groups.items()):
+        lines = []
+        for c in cs:
+            lines.append(f"SET datafusion.execution.batch_size = {c['batch']};")
+            vals = ", ".join(f"({i})" for i in range(1, c["n"] + 1))
+            lines.append(f"SELECT x FROM (VALUES {vals}) AS t(x);" if c["n"] else "SELECT x FROM (VALUES (1)) AS t(x) WHERE x > 1;")
+        _, p = run_harness(ctx, "vaux", ["c51-repl", "--format", fmt, "--maxrows", "inf" if m == 99 else m, "--quiet", "false"],
+                           stdin="\n".join(lines) + "\n", timeout=600, check=False)
+        if p.returncode != 0:
+            raise ToolError(f"c51-repl exited {p.returncode}: {p.stderr[-500:]}")
+        blocks = parse_blocks(fmt, p.stdout)
+        if len(blocks) != 2 * len(cs):
+            raise ToolError(f"c51-repl maxrows: expected {2*len(cs)} statement footers, saw {len(blocks)}")
+        for c, (data, footer) in zip(cs, blocks[1::2]):
+            evals += 1
+            shown = len(rows_of(fmt, data))
+            fetched = int(footer.split()[0])
+            notice = "displayed. Use --maxrows to adjust" in footer
+            ok = fetched == c["n"] and shown == c["shown"] and notice == c["notice"]
+            if not ok:
+                key = None
+                if fmt != "table" and m != 99 and shown < c["n"] and not notice and fetched == c["n"]:
+                    key = "non-table format with --maxrows: result batches beyond the limit are neither printed nor announced"
+                viol.append(({"kind": "maxrows", "case": c, "observed": {"rows_shown": shown, "footer": footer, "notice": notice, "stdout": "\n".join(data)[:400]},
+                              "oracle": "CliMaxRows: rows shown / notice (only the Table format may truncate, and must say so)"}, key))
+            elif len(samples) < 1 and c["notice"]:
+                samples.append({"case": c, "footer": footer})
+    return evals, viol, samples
+
+
+def check_files(ctx, scripts):
+    """exec_from_lines (`-f FILE`): comment lines, shebang, statements spread over lines; same expectations as the REPL."""
+    name, m = MAPS[0]
+    viol, evals = [], 0
+    lines = ["#!/usr/bin/env datafusion-cli", "-- a comment; with a semicolon; select 'no';"]
+    for i, c in enumerate(scripts):
+        lines.append(f"select 'M{i}' as m;")
+        text = sym2txt(c["line"], m)
+        # break the line after some top-level separators (the statements are known): a line must end with ';' to be executed
+        lines.append("-- comment between statements; select 'no' as no;")
+        lines.append(text)
+    lines.append(f"select 'M{len(scripts)}' as m;")
+    path = ctx.path("script.sql")
+    open(path, "w").write("\n".join(lines) + "\n")
+    _, p = run_harness(ctx, "vaux", ["c51-file", "--format", "ndjson", "--file", path], timeout=600, check=False)
+    if p.returncode != 0:
+        raise ToolError(f"c51-file exited {p.returncode}: {p.stderr[-500:]}")
+    groups, cur = {}, None
+    for ln in p.stdout.split("\n"):
+        if not ln.strip():
+            continue
+        try:
+            obj = json.loads(ln)
+        except Exception:
+            obj = {"_unparsed": ln}
+        if isinstance(obj, dict) and list(obj.keys()) == ["m"] and str(obj["m"]).startswith("M"):
+            cur = int(obj["m"][1:])
+            groups[cur] = []
+        elif cur is not None:
+            groups[cur].append(obj)
+    for i, c in enumerate(scripts):
+        evals += 1
+        exp = [("value", sym2txt(e["val"], m)) if e["kind"] == "S" else ("key", sym2txt(e["val"], m)) for e in c["expect"]]
+        got = []
+        for o in groups.get(i, [{"_missing_marker": i}]):
+            if isinstance(o, dict) and len(o) == 1:
+                (k, v), = o.items()
+                got.append(("key", k) if v == 1 and not isinstance(v, bool) else ("value", v))
+            else:
+                got.append(("?", o))
+        if got != exp and len(viol) < 10:
+            viol.append({"kind": "file", "case": c, "input": sym2txt(c["line"], m), "expected": exp, "observed": got, "stderr_tail": p.stderr[-400:],
+                         "oracle": "file mode: comment lines are skipped, every statement of a line is executed once, in order"})
+    return evals, viol
+
+
+def check_commands(ctx):
+    """Backslash commands are not split at ';' and take effect on the following statements."""
+    script = "select 'a;b' as v;\n\\pset format csv\nselect 'c;d' as v;\n\\pset format tsv\nselect 1 as \"x;y\";\n\\pset\n"
+    _, p = run_harness(ctx, "vaux", ["c51-repl", "--format", "ndjson"], stdin=script, timeout=300, check=False)
+    out = [l for l in p.stdout.split("\n") if l.strip() and l.strip() != "\\q"]
+    exp = ['{"v":"a;b"}', "Output format is Csv.", "v", "c;d", "Output format is Tsv.", "x;y", "1", "Output format is Tsv."]
+    if out != exp:
+        return 1, [{"kind": "commands", "input": script, "expected": exp, "observed": out, "oracle": "\\pset switches the output format of the following statements; command lines are not split"}]
+    return 1, []
+
+
 # ------------------------------------------------------------------ 3. output formats (B2)
 
 FORMATS = ["csv", "tsv", "json", "ndjson", "automatic"]
@@ -287,7 +417,12 @@ def run(ctx):
     build("vaux")
     if ctx.replay:
         rp = json.load(open(ctx.replay))
-        if rp["kind"] == "split":
+        if rp["kind"] == "maxrows":
+            n, vk, samples = check_maxrows(ctx, [rp["case"]])
+            viol = []
+            for v, key in vk:
+                report_violation(ctx, v, key=key)
+        elif rp["kind"] == "split":
             n, viol, samples = check_split(ctx, [rp["case"]], rp["map"])
         elif rp["kind"] == "script":
             n, viol, samples = check_scripts(ctx, [rp["case"]], rp["map"])
@@ -310,8 +445,16 @@ def run(ctx):
     r3, k3, grids = gen_grids(ctx)
     runs = print_cases(ctx, grids)
     n3, v3, s3, r4 = check_print(ctx, runs)
-    for v in v1 + v2 + v3:
+    r5, mcases = gen_maxrows(ctx)
+    n5, v5, s5 = check_maxrows(ctx, mcases)
+    if not any(c["notice"] for c in mcases) or not any(c["fmt"] != "table" and c["maxrows"] < c["n"] for c in mcases):
+        raise ToolError("vacuity: row-limit cases without truncation / without a non-table format under a limit")
+    n6, v6 = check_files(ctx, scripts[: (60 if ctx.quick else 400)])
+    n7, v7 = check_commands(ctx)
+    for v in v1 + v2 + v3 + v6 + v7:
         report_violation(ctx, v)
+    for v, key in v5:
+        report_violation(ctx, v, key=key)
     multi = sum(1 for c in cases if len(c["expect"]) >= 2)
     quoted = sum(1 for c in cases if ("q" in c["s"] or "d" in c["s"]) and "s" in c["s"])
     write_evidence(ctx, "model_checking", {
@@ -328,7 +471,9 @@ def run(ctx):
         "formats": {"constants": k3, "grids": len(grids), "nontrivial_grids": sum(1 for g in grids if nontrivial_grid(g)),
                     "print_runs_validated_by_TLC": n3, "formats": FORMATS, "trace_states": r4.distinct, "violations": len(v3),
                     "spec_level": "RoundTrip (decoders read back 2 reference CSV writers x header, JSON/NDJSON writers with/without explicit nulls) and Sensitive (unquoted separators/quotes/newlines, NULL printed as \"\" in JSON are rejected) hold on every generated grid"},
-        "evaluations": n1 + n2 + n3,
+        "row_limits": {"cases": n5, "violations_or_known": len(v5), "states": r5.distinct, "formats_x_limits": sorted({(c["fmt"], c["maxrows"]) for c in mcases})[:40]},
+        "file_mode": {"script_lines": n6, "violations": len(v6)}, "backslash_commands": {"runs": n7, "violations": len(v7)},
+        "evaluations": n1 + n2 + n3 + n5 + n6 + n7,
         "distinct_nontrivial": quoted + sum(1 for c in scripts if c["inner"]) + sum(1 for g in grids if nontrivial_grid(g)),
         "rule": "splitter: every line over {a ; ' \" blank newline} up to MaxLen plus SampleN random lines per longer length, x2 character mappings; non-trivial = contains a quote and a semicolon. formats: every grid with rows*cols <= ExhCells over the cell pools, SampleN random grids per bigger shape; each printed in 5 formats x (header, batch split, string type) variants; non-trivial = has NULL/empty/separator/quote/newline/unicode cell",
     }, assumptions=[
